@@ -118,8 +118,92 @@ def cases_nd(rng, tier):
     return cs
 
 
+def measured_fixed():
+    """Which sign convention _resize_discr uses for a restriction with an explicit offset
+    (finding range-restrict-explicit-offset): False = as coded (range left of the domain),
+    True = repaired (range inside the domain)."""
+    import odl
+    X = odl.uniform_discr(0, 1, 10)
+    try:
+        lo = float(odl.ResizingOperator(X, ran_shp=(6,), offset=2).range.min_pt[0])
+    except Exception:
+        return False
+    return abs(lo - 0.2) < 1e-9
+
+
+def _out(f):
+    try:
+        return 'IOk %s' % C.qs(np.asarray(f()).ravel().tolist())
+    except ValueError:
+        return 'IValueErr'
+    except Exception:
+        return 'IOtherErr'
+
+
+def cases_op(rng, tier):
+    import odl
+    cs = C.CaseSet('resizing_op', ['C16.Syntax', 'Gen.Padding', 'C16.Model', 'C16.ModelNd', 'C16.ModelOp',
+                                   'C16.Corr'], 'checkOp', 'caseOp')
+    fixed = measured_fixed()
+    nper = 10 if tier == 'quick' else 50
+    for mode in MODES:
+        for k in range(nper):
+            ndim = rng.choice([1, 1, 2])
+            dom, nnew, offs, flags, kw_flags = [], [], [], [], []
+            mins, maxs, shape = [], [], []
+            same_flags = k % 3 != 0
+            for a in range(ndim):
+                bl, br = rng.choice([(False, False), (False, False), (True, True), (True, False), (False, True)])
+                n = rng.randint(2, 5)
+                csz = rng.choice([0.5, 0.25, 1.0, 2.0])
+                mn = rng.choice([0.0, -1.0, 0.5, 3.0])
+                ext = (n - 0.5 * (bl + br)) * csz
+                lim = {'symmetric': n - 1, 'periodic': n}.get(mode, 4)
+                grow = k % 4 != 3
+                if grow:
+                    pl, pr = rng.randint(0, min(lim, 3)), rng.randint(0, min(lim, 3))
+                    m_ = n + pl + pr
+                    off = rng.choice([None, pl, pl, rng.randint(0, pl + pr)])
+                else:
+                    m_ = rng.randint(2, n)
+                    off = rng.choice([None, None, rng.randint(0, n - m_)])
+                nbl, nbr = (bl, br) if same_flags else rng.choice([(False, False), (True, True), (True, False)])
+                dom.append((mn, mn + ext, n, (bl, br)))
+                mins.append(mn); maxs.append(mn + ext); shape.append(n)
+                nnew.append(m_); offs.append(off); flags.append((bl, br)); kw_flags.append((nbl, nbr))
+            c = rng.choice([0, 0, 1.5, -2]) if mode == 'constant' else 0
+            X = odl.uniform_discr(mins, maxs, shape, nodes_on_bdry=flags)
+            try:
+                op = odl.ResizingOperator(X, ran_shp=tuple(nnew), offset=None if all(o is None for o in offs)
+                                          else [o for o in offs], pad_mode=mode, pad_const=c,
+                                          discr_kwargs={'nodes_on_bdry': kw_flags})
+            except Exception:
+                continue
+            x = np.array([rng.randint(-9, 9) for _ in range(int(np.prod(shape)))], dtype=float).reshape(shape)
+            y = np.array([rng.randint(-9, 9) for _ in range(int(np.prod(nnew)))], dtype=float).reshape(nnew)
+            fx = _out(lambda: op(x))
+            ay = _out(lambda: op.adjoint(y))
+            inv = _out(lambda: op.inverse(op(x)))
+            R = op.range
+            doms = C.lst(dom, lambda d: '(%s, %s, %s%%Z, (%s, %s))' % (C.q(d[0]), C.q(d[1]), C.z(d[2]),
+                                                                    C.b(d[3][0]), C.b(d[3][1])))
+            term = ('{| o_fixed := %s; o_m := %s; o_c := %s; o_dom := %s; o_nnew := %s%%Z; o_off := %s; '
+                    'o_flags := %s; o_rmin := %s; o_rmax := %s; o_rcs := %s; o_offset := %s%%Z; '
+                    'o_x := %s; o_fx := %s; o_y := %s; o_ay := %s; o_inv := %s |}'
+                    % (C.b(fixed), T.PMODE[mode], C.q(c), doms, C.zs(nnew),
+                       C.lst(offs, lambda o: 'None' if o is None else '(Some %s%%Z)' % C.z(o)),
+                       C.lst(kw_flags, lambda f: '(%s, %s)' % (C.b(f[0]), C.b(f[1]))),
+                       C.qs(R.min_pt.tolist()), C.qs(R.max_pt.tolist()), C.qs(R.cell_sides.tolist()),
+                       C.zs([int(o) for o in op.offset]),
+                       C.qs(x.ravel().tolist()), fx, C.qs(y.ravel().tolist()), ay, inv))
+            cs.add(term, {'mode': mode, 'domain': dom, 'ran_shp': nnew, 'offset': offs, 'kw_nodes_on_bdry': kw_flags,
+                          'pad_const': c, 'x': x.tolist()},
+                   (mode, tuple(dom), tuple(nnew), tuple(offs), tuple(kw_flags), c, tuple(x.ravel().tolist())))
+    return cs
+
+
 def correspondence(rng, tier):
-    return [cases_1d(rng, tier), cases_nd(rng, tier)]
+    return [cases_1d(rng, tier), cases_nd(rng, tier), cases_op(rng, tier)]
 
 
 def probes(rng, tier):
